@@ -34,8 +34,8 @@ def run(pid, tier):
 
 
 def finish(chk, col, pid):
-    mine = [f for f in col.findings if f.prop() == pid]
-    other = [f for f in col.findings if f.prop() != pid]
+    mine = [f for f in col.findings if pid in f.props()]
+    other = [f for f in col.findings if pid not in f.props()]
     for f in mine:
         chk.violate(f.signature(), f.what(), f.replay())
     chk.traces = col.accepted
@@ -67,8 +67,59 @@ def replay(pid, path):
     else:
         from checks import thr_model as M
         M.replay_schedule(chk, col, bindir, rp)
-    hits = [f for f in col.findings if f.prop() == pid]
+    hits = [f for f in col.findings if pid in f.props()]
     for f in hits:
         print("replayed:", f.what())
     print("replay of %s: %d rule(s) of %s broken (recorded: %s)" % (path, len(hits), pid, rp.get("rule")))
     return 1 if hits else 0
+
+
+def selftest(pid="C05"):
+    """Anti-vacuity of the trace judge: a recorded good run is accepted; the same run with one event
+    dropped / one field corrupted is rejected with the expected rule."""
+    import copy
+    chk = core.Check(pid, "quick", "model_checking")
+    bindir = T.build()
+    script = ["baseline", "one ty=vec fin=ret op=join", "one ty=dv fin=ret op=drop hdelay=3000", "one ty=u8 fin=panic op=join", "quiesce"]
+    r = T.run_probe(chk, bindir, "selftest", script, strace=True, timeout=60)
+    order, batches, info = T.normalise(r)
+    good = [t.ev for t in order]
+    cases = [("unchanged", good[0], None)]
+
+    def without(evs, pred):
+        out, done = [], False
+        for e in evs:
+            if not done and pred(e):
+                done = True
+                continue
+            out.append(e)
+        return out
+
+    def changed(evs, pred, **kw):
+        out, done = [], False
+        for e in evs:
+            if not done and pred(e):
+                e = dict(e, **kw)
+                done = True
+            out.append(e)
+        return out
+
+    cases.append(("drop rel tls", without(good[0], lambda e: e["e"] == "rel" and e.get("r") == "tls"), "leak_tls"))
+    cases.append(("dup rel tsm", good[0][:-1] + [{"e": "rel", "r": "tsm", "by": "H"}] + good[0][-1:], "released_twice_tsm"))
+    cases.append(("res some->none", changed(good[0], lambda e: e["e"] == "ret", res="none"), "join_none_but_closure_returned"))
+    cases.append(("run twice", good[0][:5] + [{"e": "run"}] + good[0][5:], "closure_ran_twice"))
+    cases.append(("acquire->relaxed", [dict(e, acq=False) if e["e"] == "xload" else e for e in good[0]], "no_happens_before_exit_to_join"))
+    cases.append(("word 1 at free", changed(good[0], lambda e: e["e"] == "touch" and e.get("what") == "free", word=1), "tsm_released_before_thread_exit"))
+    cases.append(("no vdrop", without(good[1], lambda e: e["e"] == "vdrop"), "result_not_dropped"))
+    cases.append(("no fin before ret", without(good[0], lambda e: e["e"] == "fin"), "join_returned_before_closure_finished"))
+    cases.append(("panic + some", changed(good[2], lambda e: e["e"] == "ret", res="some"), "join_some_but_closure_panicked"))
+    cases.append(("timeout", good[0][:8] + [{"e": "timeout", "op": "join"}], "hang_in_join"))
+    verdicts, n = T.judge(chk, "selftest", [(c[0], c[1]) for c in cases])
+    bad = 0
+    for i, (name, evs, want) in enumerate(cases):
+        got = sorted({r for (r, _) in verdicts.get(i, [])})
+        ok = (want is None and not got) or (want is not None and want in got)
+        print("selftest %-22s expected %-40s got %s %s" % (name, want, got, "ok" if ok else "WRONG"))
+        bad += 0 if ok else 1
+    print("selftest: %d case(s), %d wrong" % (len(cases), bad))
+    return 0 if bad == 0 else 2
